@@ -28,7 +28,7 @@ for p in props:
             "evidence_file": f"/verif/evidence/{pid}.json",
             "replay_cmd_template": f"./check {pid} --replay {{path}}",
             "engine": lt["engine"],
-            "level_claimed": {"category": "model_checking", "text": lt["text"], "design_ref": f"DESIGN.md §4 {pid}"},
+            "level_claimed": {"category": "model_checking", "text": lt["text"], "design_ref": (f"DESIGN.md §4 {pid}" if pid != "C14" else "DESIGN.md I.4 row C14 and 'C14 is claimed in a reduced form' (the plan in Part II had it as not applicable)")},
             "level_note": lt["note"],
             "technique": lt["technique"],
         })
